@@ -30,7 +30,7 @@ import numpy as np
 import torch
 
 from .core import Ctx, MachineryError
-from .dualcone_replay import DTYPES, EPS32, K32, Session, make, pref_given, pref_tensor, rationalise
+from .dualcone_replay import DTYPES, EPS32, EPS64, K32, K64, Session, make, pref_given, pref_tensor, rationalise
 from .tlc import run_tlc
 
 INT_MAX = 2 ** 31 - 1
@@ -424,10 +424,10 @@ def validate_exact(ctx: Ctx, episodes: list[dict], pid: str) -> dict:
 # ---------------------------------------------------------------- predicate level (float64)
 
 def _wtol(reg_eps: float, f32: bool) -> float:
-    """Relative allowance on the weights: float64 - rounding of the QP solve grows with the conditioning
-    (1 + reg_eps) / reg_eps of the regularised Gramian; float32 matrices - the perturbation bound of
-    dualcone_replay.eval_c03, (K32 eps32 / reg_eps + 2 eps32)."""
-    return (K32 * EPS32 / reg_eps + 2 * EPS32) if f32 else max(1e-9, 1e-13 / reg_eps)
+    """Relative allowance on the weights: the perturbation bound of dualcone_replay.eval_c03 for the minimiser of the
+    regularised QP, (K eps / reg_eps + 2 eps) with (K32, eps32) for float32 matrices and (K64, eps64) for float64 ones
+    (the same allowance as in the replay of the row-scaled family; the measured residuals stay below 1 % of it)."""
+    return (K32 * EPS32 / reg_eps + 2 * EPS32) if f32 else (K64 * EPS64 / reg_eps + 2 * EPS64)
 
 
 def kkt_predicate(J: torch.Tensor, u: list[float], norm_eps: float, reg_eps: float, w: list[float], f32: bool = False) -> str | None:
@@ -458,6 +458,10 @@ def kkt_predicate(J: torch.Tensor, u: list[float], norm_eps: float, reg_eps: flo
     return None
 
 
+ROW_SCALE_EXPONENTS = (0, 0, 3, 6, 8, 9, 10, 12)
+PRED_PREF_ENTRIES = (0.0, 0.0, 0.5, 1.0, 1.0, 2.0, 2.0 ** -36)      # sparse / one-hot / tiny entries included
+
+
 def _pred_matrix(rng: random.Random, g: torch.Generator, kind: str, m: int, n: int) -> torch.Tensor:
     if kind == "gauss":
         J = torch.randn(m, n, dtype=torch.float64, generator=g)
@@ -468,6 +472,10 @@ def _pred_matrix(rng: random.Random, g: torch.Generator, kind: str, m: int, n: i
     else:
         J = torch.randn(m, n, dtype=torch.float64, generator=g)
         J[1] = -J[0] * (1 + 1e-3 * rng.random()) + 1e-3 * torch.randn(n, dtype=torch.float64, generator=g)
+    if rng.random() < 0.4:
+        # row-scale ladder (DualCone.tla, row-scaled family): row norms up to 12 orders of magnitude apart
+        d = torch.tensor([10.0 ** -rng.choice(ROW_SCALE_EXPONENTS) for _ in range(m)], dtype=torch.float64)
+        J = J * d[:, None]
     return J * 10.0 ** rng.choice((-6, -3, 0, 0, 3, 6))
 
 
@@ -530,7 +538,9 @@ def predicate_episodes(ctx: Ctx, rng: random.Random, count: int, pid: str) -> in
     """Gaussian / general integer matrices, m <= 5: DualProj by its KKT system, UPGrad as the sum of the KKT-validated
     projections of u_i e_i.  Sessions of 1..4 calls on matrices of one shape and dtype (float64, or float32 with
     reg_eps >= 1e-2 where the float32 allowance is meaningful), tensor / aggregator objects new or re-used, the
-    preference vector given as float64 / float32 / int64 (entries in {0, 1/2, 1, 2}: exact in every admissible dtype)."""
+    preference vector given as float64 / float32 / int64 (entries in {0, 2^-36, 1/2, 1, 2}, at least one >= 1/2: exact in
+    every admissible dtype; sparse, one-hot and tiny-entry vectors included); 40 % of the matrices have their rows scaled
+    by powers of ten down to 1e-12 (row-scale ladder)."""
     done = 0
     g = torch.Generator().manual_seed(rng.randrange(2 ** 31))
     while done < count:
@@ -550,9 +560,9 @@ def predicate_episodes(ctx: Ctx, rng: random.Random, count: int, pid: str) -> in
                 ne, rg = rng.choice(((1e-6, 1e-2), (0.5, 0.125), (1e-4, 0.5)))
             else:
                 ne, rg = rng.choice(((1e-4, 1e-4), (1e-4, 1e-4), (1e-6, 1e-2), (1e-2, 1e-6), (0.5, 0.125)))
-            u = [rng.choice((0.0, 0.5, 1.0, 2.0)) for _ in range(m)]
-            if sum(u) == 0:
-                u[0] = 1.0
+            u = [rng.choice(PRED_PREF_ENTRIES) for _ in range(m)]
+            if max(u) < 0.5:
+                u[rng.randrange(m)] = 1.0
             pdt = rng.choice(["f64", "f32"] + (["i64"] if all(x == int(x) for x in u) else []))
             call = {"J": J.tolist(), "u": u, "norm_eps": ne, "reg_eps": rg, "mdt": mdt, "pdt": pdt,
                     "tmode": rng.choice(("fresh", "reused")), "amode": rng.choice(("fresh", "reused"))}
@@ -587,48 +597,64 @@ def _mgda_matrix(rng: random.Random):
 
 
 def mgda_episode(args) -> dict:
-    J0, K, ep = args
+    """One MGDA(epsilon = 0, max_iters = K) call; epsilon = 0 is given as the float 0.0 or as the integer 0 (`epsz`,
+    DualCone.tla EpsZeroPres; jobs without the field: by the parity of the episode number)."""
+    J0, K, ep = args[:3]
+    epsz = args[3] if len(args) > 3 else ("float", "int")[ep % 2]
     J = torch.tensor(J0, dtype=torch.float64)
     try:
-        out = make("mgda", None, epsilon=0.0, max_iters=K)(J)
+        out = make("mgda", None, epsilon=0.0, epsz=epsz, max_iters=K)(J)
         if not bool(torch.isfinite(out).all()):
             raise ValueError("non-finite output")
     except Exception as ex:                                                   # noqa: BLE001
-        return {"ep": ep, "J": J0, "K": K, "raised": f"{type(ex).__name__}: {str(ex)[:150]}"}
+        return {"ep": ep, "J": J0, "K": K, "epsz": epsz, "raised": f"{type(ex).__name__}: {str(ex)[:150]}"}
     a2 = float(out @ out)
     prod = (J @ out).tolist()
     slack = 1e-9 * (1.0 + a2)
-    return {"ep": ep, "J": J0, "K": K,
+    return {"ep": ep, "J": J0, "K": K, "epsz": epsz,
             "a2lo": int(math.floor((a2 - slack) * 1024)), "a2hi": int(math.ceil((a2 + slack) * 1024)),
             "phi": [int(math.ceil((p + 1e-9 * (1.0 + abs(p))) * 64)) for p in prod],
             "out_float": out.tolist()}
 
 
-def mgda_episodes(rng: random.Random, count: int, budgets=(1, 2, 3, 10, 100, 1000, 5000)) -> list:
-    """(J0, K, ep) triples: integer matrices with entries in -4..4, m <= 3 (strongly conflicting, imbalanced,
-    rank-deficient ones included), all iteration budgets; large budgets get half of the episodes."""
+def mgda_episodes(rng: random.Random, count: int, budgets=(1, 2, 3, 10, 100, 1000, 5000), huge=(20000, 60000),
+                  n_huge=(8, 4)) -> list:
+    """(J0, K, ep, epsz) jobs: integer matrices with entries in -4..4, m <= 3 (strongly conflicting, imbalanced,
+    rank-deficient ones included), all iteration budgets of the specification's ladder; large budgets get half of the
+    episodes, the two budgets at the top of the ladder n_huge[0] / n_huge[1] episodes on three-row matrices (they come
+    first: a call costs K iterations); epsilon = 0 given as float / int at random."""
     jobs = []
+    todo = [K for K, k in zip(reversed(huge), reversed(n_huge)) for _ in range(k)]
     while len(jobs) < count:
         J0 = _mgda_matrix(rng)
         if all(x == 0 for r in J0 for x in r):
             continue
-        K = rng.choice((1000, 5000, 5000)) if rng.random() < 0.5 else rng.choice(budgets)
-        jobs.append((J0, K, len(jobs) + 1))
+        if todo:
+            if len(J0) < 3:
+                continue
+            K = todo.pop(0)
+        else:
+            K = rng.choice((1000, 5000, 5000)) if rng.random() < 0.5 else rng.choice(budgets)
+        jobs.append((J0, K, len(jobs) + 1, rng.choice(("float", "int"))))
     return jobs
+
+
+def _eps0(e: dict) -> str:
+    return "0" if e.get("epsz") == "int" else "0.0"
 
 
 def validate_mgda(ctx: Ctx, episodes: list[dict]) -> dict:
     for e in [e for e in episodes if "raised" in e]:
         j = ";".join(",".join(str(x) for x in r) for r in e["J"])
-        ctx.violation(f"trace:mgda:J=[{j}]:K={e['K']}:raised", f"MGDA(epsilon=0, max_iters={e['K']}) on {e['J']}: {e['raised']}",
-                      {"kind": "mgda_trace", "J": e["J"], "K": e["K"]})
+        ctx.violation(f"trace:mgda:J=[{j}]:K={e['K']}:raised", f"MGDA(epsilon={_eps0(e)}, max_iters={e['K']}) on {e['J']}: {e['raised']}",
+                      {"kind": "mgda_trace", "J": e["J"], "K": e["K"], "epsz": e.get("epsz", "float")})
     episodes = [e | {"ep": i + 1} for i, e in enumerate(e for e in episodes if "raised" not in e)]
     if not episodes:
         return {"episodes": 0, "accepted": 0, "rejected": 0}
     with tempfile.TemporaryDirectory(prefix="verif_minnorm_") as d:
         path = os.path.join(d, "episodes.json")
         with open(path, "w") as f:
-            json.dump([{k: e[k] for k in ("ep", "J", "K", "a2lo", "a2hi", "phi")} for e in episodes], f)
+            json.dump([{k: e[k] for k in ("ep", "J", "K", "a2lo", "a2hi", "phi")} | {"epsz": e.get("epsz", "float")} for e in episodes], f)
         res = run_tlc("TraceMinNorm", "Trace_MinNorm.cfg", workers=1, env={"TRACE_FILE": path}, timeout=900)
     ctx.add_tlc(res)
     if res.violated:
@@ -643,8 +669,8 @@ def validate_mgda(ctx: Ctx, episodes: list[dict]) -> dict:
             raise MachineryError(f"MinNorm model failure on {e['J']}: {rj['clause']}")
         j = ";".join(",".join(str(x) for x in r) for r in e["J"])
         ctx.violation(f"trace:mgda:J=[{j}]:K={e['K']}:{rj['clause']}",
-                      f"MGDA(epsilon=0, max_iters={e['K']}) on {e['J']}: A(J) = {e['out_float']}, |A|^2*1024 in "
+                      f"MGDA(epsilon={_eps0(e)}, max_iters={e['K']}) on {e['J']}: A(J) = {e['out_float']}, |A|^2*1024 in "
                       f"[{e['a2lo']}, {e['a2hi']}], minnorm^2 = {rj['mn2']}, {rj['lamLo']} <= s^2 < {rj['lamLo'] + 1}: "
-                      f"{rj['clause']}", {"kind": "mgda_trace", "J": e["J"], "K": e["K"]})
+                      f"{rj['clause']}", {"kind": "mgda_trace", "J": e["J"], "K": e["K"], "epsz": e.get("epsz", "float")})
     ctx.traces += len(episodes)
     return summ
